@@ -45,7 +45,7 @@ fn stored_features(t: &Stored) -> Vec<Stored1> {
 
 struct Viol(Vec<usize>, String, String);
 
-fn run_word(cfg: &TrkCfg, word: &[usize], viol: &mut Vec<Viol>, steps: &mut u64) {
+fn run_word(cfg: &TrkCfg, rotated: bool, word: &[usize], viol: &mut Vec<Viol>, steps: &mut u64) {
     let mut trk = Guarded::new(AnyTrk::new(cfg));
     let visual = cfg.kind.is_visual();
     let max = cfg.vis.max_obs;
@@ -81,11 +81,16 @@ fn run_word(cfg: &TrkCfg, word: &[usize], viol: &mut Vec<Viol>, steps: &mut u64)
             nd.quality = d.quality;
             d = nd;
         }
+        // rotated configuration: every detection of the object is turned by a quarter turn (real footprint 20 x 10)
+        if rotated {
+            d = d.rot(std::f32::consts::FRAC_PI_2);
+        }
         // symbol 5: a good feature, but half of the box is covered by another detection of the same frame
-        // (exclusively owned share 0.5)
+        // (exclusively owned share 0.5; rotated configuration: the partner lies 11 to the right along the long
+        // side, share 0.55 - the unrotated extents of the two boxes do not even touch there)
         let mut frame = vec![d.clone(), distractor.shift(0.0, 0.1 * k as f32)];
         if *s == 5 {
-            frame.push(Det { bbox: d.shift(5.0, 0.0).bbox, custom_id: None, feature: None, quality: None });
+            frame.push(Det { bbox: d.shift(if rotated { 11.0 } else { 5.0 }, 0.0).bbox, custom_id: None, feature: None, quality: None });
         }
         let recs = trk.predict(0, &frame);
         if recs.len() != frame.len() {
@@ -149,7 +154,7 @@ fn run_word(cfg: &TrkCfg, word: &[usize], viol: &mut Vec<Viol>, steps: &mut u64)
                 (None, _) => false,
                 (Some(_), 0) => true, // the detection that starts a track keeps its feature
                 // the own-area shares are computed when either own-area threshold is configured
-                (Some(n), _) => f32::from_bits(n.0) >= Q_COLLECT && d.bbox.area() >= cfg.vis.min_area && !(*s == 5 && cfg.vis.own_use + cfg.vis.own_collect > 0.0 && 0.5 < cfg.vis.own_collect),
+                (Some(n), _) => f32::from_bits(n.0) >= Q_COLLECT && d.bbox.area() >= cfg.vis.min_area && !(*s == 5 && cfg.vis.own_use + cfg.vis.own_collect > 0.0 && (if rotated { 0.55 } else { 0.5 }) < cfg.vis.own_collect),
             };
             let has_new = newcomer.as_ref().map_or(false, |n| now.contains(n));
             // the statement speaks of detections that continue a track; for the one that starts it a
@@ -220,13 +225,14 @@ fn run_word(cfg: &TrkCfg, word: &[usize], viol: &mut Vec<Viol>, steps: &mut u64)
 
 pub fn run(tier: Tier) -> Report {
     let rep = Report::new("C13", tier);
-    rep.set_rule("one continuing (slowly drifting) object plus a distractor; per update a symbol from {quality .1 (below the collect threshold .3), .5, .5 (another vector), .9, no feature}; every word of length <= L (quick 6, thorough 8) and every word of length <= 4 repeated to N updates (quick 60, thorough 300) x visual_max_observations 1..4 (thorough 1..8) x history length {1,3} (thorough 1..10 subset) on VisualSort / BatchVisualSort (galleries + histories) and Sort / BatchSort (histories); plus, with the own-area 'collect' threshold configured alone (.6, .4), together with a 'use' threshold, and off, every word of length <= L-1 containing a sixth symbol (quality .9 but half of the box covered by another detection of the frame: exclusively owned share .5); plus, with the area 'collect' threshold at 150 / 250, every word of length <= L-1 over {q .5, q .9, no feature, size jump} containing a detection whose box area jumps across the threshold (141 / 288 against 200 before); after every update the gallery and the histories are read from the live store. Non-trivial = word with at least two features.");
+    rep.set_rule("one continuing (slowly drifting) object plus a distractor; per update a symbol from {quality .1 (below the collect threshold .3), .5, .5 (another vector), .9, no feature}; every word of length <= L (quick 6, thorough 8) and every word of length <= 4 repeated to N updates (quick 60, thorough 300) x visual_max_observations 1..4 (thorough 1..8) x history length {1,3} (thorough 1..10 subset) on VisualSort / BatchVisualSort (galleries + histories) and Sort / BatchSort (histories); plus, with the own-area 'collect' threshold configured alone (.6, .4), together with a 'use' threshold, and off, every word of length <= L-1 containing a sixth symbol (quality .9 but half of the box covered by another detection of the frame: exclusively owned share .5; one configuration with every box of the object turned by a quarter turn, share .55); plus, with the area 'collect' threshold at 150 / 250, every word of length <= L-1 over {q .5, q .9, no feature, size jump} containing a detection whose box area jumps across the threshold (141 / 288 against 200 before); after every update the gallery and the histories are read from the live store. Non-trivial = word with at least two features.");
     rep.assume("eviction is demanded only when capacity would be exceeded and allowed whenever the gallery was full before the update (the implementation also evicts when the newcomer carries no feature)");
     let l = tier.pick(6usize, 8usize);
     let unroll = tier.pick(60usize, 300usize);
     let mut cfgs: Vec<TrkCfg> = vec![];
     let mut half_covered: Vec<usize> = vec![];
     let mut size_jump: Vec<usize> = vec![];
+    let mut rotated_cfgs: Vec<usize> = vec![];
     let maxes: Vec<usize> = tier.pick(vec![1, 2, 3, 4], vec![1, 2, 3, 4, 5, 8]);
     let hists: Vec<usize> = tier.pick(vec![1, 3], vec![1, 2, 4, 10]);
     // the positional trackers first: cheap, and a wall cap must never skip them
@@ -265,7 +271,8 @@ pub fn run(tier: Tier) -> Report {
     }
     // the own-area 'collect' threshold (alone, and together with a 'use' threshold): 6-symbol alphabet with
     // the half-covered detection
-    for (m, own_use, own_collect, kind) in [(2usize, 0.0f32, 0.6f32, Kind::VisualSort), (3, 0.1, 0.6, Kind::VisualSort), (2, 0.0, 0.0, Kind::VisualSort), (2, 0.0, 0.6, Kind::BatchVisualSort), (3, 0.0, 0.4, Kind::VisualSort)] {
+    for (m, own_use, own_collect, kind) in [(2usize, 0.0f32, 0.6f32, Kind::VisualSort), (3, 0.1, 0.6, Kind::VisualSort), (2, 0.0, 0.0, Kind::VisualSort), (2, 0.0, 0.6, Kind::BatchVisualSort), (3, 0.0, 0.4, Kind::VisualSort), (2, 0.0, 0.6001, Kind::VisualSort)] {
+        // the last entry (threshold written 0.6001) is the ROTATED configuration: same thresholds, every box turned
         let mut c = TrkCfg::new(kind);
         c.history = 2;
         c.max_idle = 1;
@@ -277,6 +284,9 @@ pub fn run(tier: Tier) -> Report {
         c.vis.own_use = own_use;
         c.vis.own_collect = own_collect;
         half_covered.push(cfgs.len());
+        if own_collect == 0.6001 {
+            rotated_cfgs.push(cfgs.len());
+        }
         cfgs.push(c);
     }
     // the area 'collect' threshold with a detection whose size jumps across it (alphabet {q .5, q .9, none, jump})
@@ -341,11 +351,12 @@ pub fn run(tier: Tier) -> Report {
         let nchunks = (ws.len() + chunk - 1) / chunk;
         let ws = Arc::new(ws);
         let (ws2, cfg2) = (ws.clone(), cfg.clone());
+        let rot2 = rotated_cfgs.contains(&cfg_i);
         let outs = run_jobs(nchunks, move |ci| {
             let mut viol = vec![];
             let mut steps = 0u64;
             for w in &ws2[ci * chunk..((ci + 1) * chunk).min(ws2.len())] {
-                run_word(&cfg2, w, &mut viol, &mut steps);
+                run_word(&cfg2, rot2, w, &mut viol, &mut steps);
             }
             (viol.into_iter().map(|v| (v.0, v.1, v.2)).collect::<Vec<_>>(), steps)
         });
